@@ -162,6 +162,24 @@ Proof.
   apply IH; [cbn in Hl; lia|assumption].
 Qed.
 
+Lemma match_nonempty {A B} (l : list A) (x y : B) :
+  l <> [] -> match l with [] => x | _ :: _ => y end = y.
+Proof. destruct l; [contradiction|reflexivity]. Qed.
+
+Lemma map_combine_snd {B C} (g : B -> C) (es : list B) k :
+  map (fun x : nat * B => g (snd x)) (combine (seq k (length es)) es) = map g es.
+Proof.
+  revert k. induction es as [|e es IH]; intro k; [reflexivity|].
+  cbn [length seq combine map snd]. f_equal. apply IH.
+Qed.
+
+Lemma map_combine_fst {B C} (g : nat -> C) (es : list B) k :
+  map (fun x : nat * B => g (fst x)) (combine (seq k (length es)) es) = map g (seq k (length es)).
+Proof.
+  revert k. induction es as [|e es IH]; intro k; [reflexivity|].
+  cbn [length seq combine map fst]. f_equal. apply IH.
+Qed.
+
 Section Csv2.
   Variable V : Type.
   Variable veqb : V -> V -> bool.
@@ -306,7 +324,10 @@ Section Csv2.
               (to_csv2 V print printi v0 with_header (build V veqb fracs))
     = Ok (build V veqb fracs, map Z.of_nat (seq 0 (length fracs))).
   Proof.
-    intro Hd. set (net := build V veqb fracs).
+    intro Hd. destruct fracs as [|f0 fracs']; [destruct with_header; reflexivity|].
+    assert (Hpos : 0 < length (f0 :: fracs')) by (cbn; lia).
+    remember (f0 :: fracs') as fracs eqn:Efr. clear Efr f0 fracs'.
+    set (net := build V veqb fracs).
     assert (Hskip : skipn (if with_header then 1 else 0) (to_csv2 V print printi v0 with_header net)
                     = rows2 V print printi v0 net 0 (edges net)).
     { unfold to_csv2. destruct with_header; reflexivity. }
@@ -318,18 +339,12 @@ Section Csv2.
     { unfold data. rewrite map_length, combine_length, seq_length. lia. }
     assert (Hcoords : concat (map (@tl V) data) = concat (map quad fracs)).
     { unfold data. rewrite map_map. cbn [tl]. f_equal. rewrite <- Hfr. rewrite map_map.
-      generalize 0. induction (edges net) as [|e es IH]; intro k; [reflexivity|].
-      cbn [length seq combine map snd]. f_equal. apply IH. all: match goal with |- ?G => idtac "REMAIN" G end. }
+      exact (map_combine_snd (fun e => quad (frac_at (pts net) e)) (edges net) 0). }
     assert (Hids : map (fun r => hd v0 r) data = map (fun k => parse (printi k)) (seq 0 (length fracs))).
     { unfold data. rewrite map_map. cbn [hd]. rewrite <- Hlen.
-      generalize 0. induction (edges net) as [|e es IH]; intro k; [reflexivity|].
-      cbn [length seq combine map fst]. f_equal. apply IH. }
-    destruct fracs as [|f0 fracs'] eqn:Efr.
-    { destruct data; [|discriminate]. reflexivity. }
-    rewrite <- Efr in *. clear Efr f0 fracs'.
-    destruct data as [|r0 data'] eqn:Edata.
-    { destruct fracs; [|discriminate]. reflexivity. }
-    rewrite <- Edata in *. clear Edata r0 data'.
+      exact (map_combine_fst (fun k => parse (printi k)) (edges net) 0). }
+    rewrite (match_nonempty data).
+    2:{ intro E. rewrite E in Hdata_len. cbn in Hdata_len. lia. }
     rewrite Hcoords, odd_quads, pairs_quads, Hids, Hdata_len.
     set (ptl := flat_map (fun f => [fst f; snd f]) fracs).
     pose proof (uniq_ok ptl) as [Hol Hon]. destruct (uniq ptl) as [upts o2n].
@@ -362,9 +377,8 @@ Section Csv2.
       rewrite Forall_forall in Hd. apply (Hd (nth i fracs (p0, p0))).
       - apply nth_In. lia.
       - rewrite <- H. reflexivity. }
-    rewrite !sel_all; try exact Hkeep.
-    2:{ rewrite !map_length, seq_length. reflexivity. }
-    2:{ unfold e1, e0. rewrite !map_length. reflexivity. }
+    rewrite !sel_all; try exact Hkeep;
+      try (unfold e1, e0; rewrite !map_length, ?seq_length; reflexivity).
     replace (forallb _ e1) with true.
     2:{ symmetry. apply forallb_forall. intros e He. rewrite He1map in He.
         apply in_map_iff in He as (i & <- & Hi). apply in_seq in Hi.
@@ -382,3 +396,39 @@ Section Csv2.
     f_equal. f_equal. rewrite map_map. apply map_ext. intro k. apply parse_printi.
   Qed.
 End Csv2.
+
+(* the 2-D round trip in the property's words: same fractures, same order, ids 0..n-1 *)
+Theorem csv2_same_fractures :
+  forall (V : Type) (veqb : V -> V -> bool) (print : V -> str) (printi : nat -> str)
+         (parse : str -> V) (toint : V -> Z) (v0 : V)
+         (uniq : list (P2 V) -> list (P2 V) * list nat),
+    (forall a b : V, veqb a b = true <-> a = b) ->
+    (forall v : V, parse (print v) = v) ->
+    (forall k : nat, toint (parse (printi k)) = Z.of_nat k) ->
+    (forall l : list (P2 V),
+        length (snd (uniq l)) = length l /\
+        (forall i : nat, i < length l ->
+           nth i (snd (uniq l)) 0 < length (fst (uniq l)) /\
+           nth (nth i (snd (uniq l)) 0) (fst (uniq l)) (p0 V v0) = nth i l (p0 V v0))) ->
+    forall (fracs : list (P2 V * P2 V)) (with_header : bool),
+      Forall (fun f => fst f <> snd f) fracs ->
+      exists net' ids,
+        from_csv2 V veqb parse toint v0 uniq (if with_header then 1 else 0)
+                  (to_csv2 V print printi v0 with_header (build V veqb fracs)) = Ok (net', ids)
+        /\ fracs_of V v0 net' = fracs
+        /\ ids = map Z.of_nat (seq 0 (length fracs)).
+Proof.
+  intros V veqb print printi parse toint v0 uniq H1 H2 H3 H4 fracs wh Hd.
+  exists (build V veqb fracs), (map Z.of_nat (seq 0 (length fracs))).
+  split; [apply csv2_roundtrip; assumption|]. split; [|reflexivity].
+  apply fracs_of_build. exact H1.
+Qed.
+
+(* concrete instances used by the non-vacuity examples of Props/C47.v *)
+Definition ex_print (_ : unit) (v : Z) : str := [v + 48]%Z.
+Definition ex_parse (s : str) : option Z :=
+  match s with [c] => if ((48 <=? c) && (c <=? 57))%Z then Some (c - 48)%Z else None | _ => None end.
+Definition ex_pr (v : Z) : str := [48; v]%Z.
+Definition ex_pri (k : nat) : str := [Z.of_nat k].
+Definition ex_pa (s : str) : Z := match s with [_; v] => v | [k] => k | _ => 0%Z end.
+Definition ex_uniq (l : list (Z * Z)) := (l, seq 0 (length l)).
